@@ -2,6 +2,7 @@
 
 Case lines (see coq/C20/Glue.v):
   SV <a> <b> pos n pos2 n2 ch      string_view: compare/==/</find/substr/compare(pos,n,..)/C-string overloads/hash
+  SVA <buf> o1 l1 o2 l2 pos n pos2 n2 ch   as SV, but a = buf[o1,o1+l1) and b = buf[o2,o2+l2) are views into ONE buffer
   SP <buf> off cnt idx val ext     span over buf[off, off+cnt): size/iteration/index/constructors/fixed extent/write through
   PT op ; op ; ...                 unique_ptr (slots 0..3), shared_ptr (4..7), raw pointers held by the caller (8..9)
   VR op ; op ; ...                 variant<monostate,bool,int64,string,Counted,Thrower> in 3 slots
@@ -15,6 +16,7 @@ LEVEL = "proof"
 DRIVER = {"srcs": ["harness/c20_driver.cc"], "sdk": False}
 TRIVIAL_TAGS = {"pt_empty", "vr_empty", "fr_empty"}
 ASSUMPTIONS = [
+    "string_view operands either live in separate exact-size heap blocks (SV) or are two slices of one block (SVA: same start address with different lengths, identical, nested, overlapping views); the model and the SPEC see byte contents only, so any dependence of the result on addresses shows up as a disagreement",
     "the std lane of the driver (std::string_view, std::unique_ptr, std::shared_ptr, std::variant, std::function over std::ref; an index-checked "
     "vector slice for span, std::span not existing in C++17) is libstdc++ of this image; the driver prints 'std 1' only when both lanes produced identical tokens",
     "hash values are compared with std::hash<std::string_view> on the same bytes and between equal keys at different addresses; the hash function itself is not modelled",
@@ -95,6 +97,39 @@ def sv_case(rng):
     n2 = rnd_n(rng, len(b), pos2)
     ch = rng.choice(list(a) + list(alpha) + [0, 0x80, 0xff]) if rng.chance(7, 8) else rng.below(256)
     return "SV %s %s %d %d %d %d %d" % (hx(a), hx(b), pos, n, pos2, n2, ch)
+
+
+def sva_case(rng):
+    """both operands alias one buffer: same start with different lengths, identical, nested, overlapping, empty at every offset"""
+    alpha = rng.choice(ALPHABETS[:5] + [b"a", b"ab"])
+    ln = rng.choice([1, 2, 3, 4, 6, 9, rng.below(11)])
+    buf = bytes(rng.choice(alpha) for _ in range(ln))
+    k = rng.below(10)
+    o1 = rng.below(ln + 1)
+    l1 = rng.below(ln - o1 + 1)
+    if k < 3:                      # same data() pointer, (mostly) different lengths
+        o2, l2 = o1, rng.below(ln - o1 + 1)
+    elif k == 3:                   # identical views
+        o2, l2 = o1, l1
+    elif k == 4:                   # empty slice at an offset vs a non-empty one at the same offset
+        o2, l2 = o1, 0
+        l1 = ln - o1
+    elif k == 5:                   # nested
+        o2 = o1 + rng.below(l1 + 1)
+        l2 = rng.below(o1 + l1 - o2 + 1)
+    elif k == 6:                   # whole buffer vs prefix
+        o1, l1, o2, l2 = 0, ln, 0, rng.below(ln + 1)
+    else:                          # arbitrary (overlapping or disjoint) slices
+        o2 = rng.below(ln + 1)
+        l2 = rng.below(ln - o2 + 1)
+    if rng.chance(1, 2):
+        o1, l1, o2, l2 = o2, l2, o1, l1
+    pos = rnd_pos(rng, l1)
+    n = rnd_n(rng, l1, pos)
+    pos2 = rnd_pos(rng, l2)
+    n2 = rnd_n(rng, l2, pos2)
+    ch = rng.choice(list(buf) + [0, 0x80]) if buf else 0
+    return "SVA %s %d %d %d %d %d %d %d %d %d" % (hx(buf), o1, l1, o2, l2, pos, n, pos2, n2, ch)
 
 
 def sp_case(rng):
@@ -195,7 +230,7 @@ def vr_case(rng):
         if k < 6 or i < 2:
             ops.append("%s %d %s" % (rng.choice(["vset", "vemp"]), d, v_value(rng)))
         elif k == 6:
-            ops.append("vempthrow %d" % d)
+            ops.append("%s %d" % (rng.choice(["vempthrow", "vself", "vself"]), d))
         elif k < 12:
             ops.append("%s %d %d" % (rng.choice(["vcp", "vmv", "vswap", "vcc", "vmc"]), d, s))
         elif k < 16:
@@ -245,6 +280,14 @@ def gen(rng, tier):
     cases += ["CONV %d" % k for k in range(12)]
     for _ in range(2500 * m):
         cases.append(sv_case(rng))
+    # every (offset, length) pair of a short buffer against every other one: all aliasing shapes exhaustively
+    for buf in (b"key", b"aa\x00a", b"\xff\x7f"):
+        sl = [(o, l) for o in range(len(buf) + 1) for l in range(len(buf) - o + 1)]
+        for (o1, l1) in sl:
+            for (o2, l2) in sl:
+                cases.append("SVA %s %d %d %d %d 0 %d 0 %d %d" % (hx(buf), o1, l1, o2, l2, NPOS, NPOS, buf[0]))
+    for _ in range(1200 * m):
+        cases.append(sva_case(rng))
     for _ in range(250 * m):
         cases.append(sp_case(rng))
     for _ in range(1200 * m):
@@ -265,6 +308,13 @@ def neighbours(rng, cases):
                 u = list(t)
                 j = rng.choice([3, 4, 5, 6, 7])
                 u[j] = str(rng.choice([0, 1, 2, 3, NPOS, NPOS - 1, rng.below(20)]) if j != 7 else rng.below(256))
+                out.append(" ".join(u))
+        elif t[0] == "SVA":
+            ln = (len(t[1]) - 1) // 2
+            for _ in range(40):
+                u = list(t)
+                o1 = rng.below(ln + 1); o2 = rng.choice([o1, rng.below(ln + 1)])
+                u[2], u[3], u[4], u[5] = str(o1), str(rng.below(ln - o1 + 1)), str(o2), str(rng.below(ln - o2 + 1))
                 out.append(" ".join(u))
         elif t[0] in ("PT", "VR", "FR"):
             ops = c[3:].split(" ; ")
